@@ -60,6 +60,28 @@ pub fn eval(p: &Parameters, q: &[f64; 6]) -> Vec<(String, String)> {
             fails.push(("C03/not-a-function-of-its-arguments".to_string(), "two identical forward calls (an unrelated robot queried in between) returned different poses".to_string()));
         }
     }
+    // on the same eighth: the robot behind a geared parallelogram (J2 drives J3, ratio 0.5 / -1 / 2 by the bits of q). Its
+    // flange pose and its six link poses are those of the chain at the joint vector the wrapped robot sees
+    if probe {
+        let scaling = [0.5, -1.0, 2.0][((hq >> 7) % 3) as usize];
+        let geared = rs_opw_kinematics::parallelogram::Parallelogram { robot: std::sync::Arc::new(OPWKinematics::new(*p)), scaling, driven: 1, coupled: 2 };
+        let mut seen = *q;
+        seen[2] -= scaling * q[1];
+        let want = fkref::links(p, &seen);
+        let got_links = geared.forward_with_joint_poses(q);
+        let got_fwd = from_na(&geared.forward(q));
+        let (dp, da) = pose_dist(&got_fwd, &want[5]);
+        if !(dp <= POS_TOL && da <= ANG_TOL) {
+            fails.push(("C03/geared-parallelogram/forward-vs-chain".to_string(), format!("forward differs from the chain at the wrapped robot's joints by {dp:e} m, {da:e} rad (ratio {scaling})")));
+        }
+        for i in 0..6 {
+            let (dp, da) = pose_dist(&from_na(&got_links[i]), &want[i]);
+            if !(dp <= POS_TOL && da <= ANG_TOL) {
+                fails.push((format!("C03/geared-parallelogram/link{}-vs-chain", i + 1), format!("link {} differs from the chain at the wrapped robot's joints by {dp:e} m, {da:e} rad (ratio {scaling})", i + 1)));
+                break;
+            }
+        }
+    }
     let fwd = from_na(&fwd_na);
     let refl = fkref::links(p, q);
     let tcp_ref = refl[5];
